@@ -11,11 +11,12 @@ lines, backslash continuations, later definitions calling earlier ones, several 
     rare <switches> --funcs f expression [--no-optimize] -d .. -k .. '{name args..}'      against
     rare <switches>           expression [--no-optimize] -d .. -k .. '<the body, arguments substituted>'
 
-comparing exit status class and standard output.  The inline text is produced by the same tree the definition is printed
+comparing exit status class and standard output; and (concurrency clause) `rare … --funcs f histo --workers W --batch B -e
+'{name {1} {2}}' file` of the race-detector build against the inlined body evaluated by one worker (`workers_family`).  The inline text is produced by the same tree the definition is printed
 from (full inlining, nested user functions expanded), so a difference is a failing input of the property, replayable by the
 two command lines of the violation record.  Every case is also run without the switches (control) and the number of cases in
 which the switch changes the inline output is reported (`switch_sensitive`), so the search is visibly non-vacuous."""
-import os, sys, shutil, subprocess
+import os, re, sys, shutil, subprocess
 sys.path.insert(0, os.path.dirname(__file__))
 from common import build_rare, Rand
 
@@ -178,6 +179,109 @@ def sh(args):
     return " ".join("'" + a.replace("'", "'\\''") + "'" if (not bare(a) and not a.startswith("-")) or a == "" else a for a in args)
 
 
+def table_of(out):
+    """The histogram of a piped `rare histo` run as a sorted list of lines, up to the `Matched:` summary (what follows is
+    a transfer rate)."""
+    lines = []
+    for l in out.split("\n"):
+        lines.append(l.rstrip())
+        if "Matched:" in l:
+            break
+    return sorted(lines)
+
+
+def workers_family(ctx, exe, d, r, g, violations):
+    """The concurrency clause on the real pipeline: `rare <switches> --funcs f histo --workers W --batch B -e '{fn {1} {2}}'`
+    (the race-detector build: W extractor goroutines evaluate ONE compiled call through its pooled lazySubContext objects)
+    against the body written inline evaluated by ONE worker of the plain build.  The `time` bodies remember a date layout
+    (`atomicFormat`); all dates of the input have ONE format, the case in which every schedule answers what a sequential
+    evaluation answers (theorem time_cache_workers_same_layout)."""
+    exe_race = build_rare(ctx, race=True)
+    n = 6 if ctx["tier"] == "quick" else 60
+    if os.environ.get("VERIF_C10_CLI_WORKERS"):
+        n = int(os.environ["VERIF_C10_CLI_WORKERS"])
+    env = {k: v for k, v in os.environ.items() if k != "RARE_FUNC_FILES"}
+    env["GORACE"] = "halt_on_error=1 exitcode=66 atexit_sleep_ms=0"
+    words = ["disk", "net", "cpu", "mem", "io", "x"]
+    runs = 0
+    for ci in range(n):
+        if len(violations) >= 3:
+            break
+        fam = ["time", "hi", "color", "bar", "time", "load"][ci % 6]
+        sw = {"hi": ["--noformat"], "color": ["--color"], "bar": ["--nounicode"], "load": [], "time": r.pick([[], ["--noformat"]])}[fam]
+        nlines = r.pick([300, 2000]) if ctx["tier"] == "quick" else r.pick([300, 2000, 8000])
+        fmt = r.pick(["2020-01-%02dT%02d:00:00Z", "%02d/Jan/2020:%02d:10:11", "2020-01-%02d_%02d:03:04"]) if fam == "time" else None
+        inp = os.path.join(d, "w%d.log" % ci)
+        with open(inp, "w") as f:
+            for _ in range(nlines):
+                second = fmt % (1 + r.intn(28), r.intn(24)) if fmt else str(r.pick([r.intn(10), r.intn(5000000), 1234567]))
+                f.write("%s %s\n" % (r.pick(words), second.replace("_", "T")))
+        defs, order, earlier = {}, [], []
+        if fam == "time":
+            body = [("arg", 0), ("lit", ":"), ("call", r.pick(["buckettime", "buckettime", "timeformat"]),
+                                              [("arg", 1) if True else None, ("lit", r.pick(["day", "hour"]))])]
+            if body[2][1] == "timeformat":
+                body[2] = ("call", "timeformat", [("call", "time", [("arg", 1)]), ("lit", "2006-01-02")])
+            inner = ("ts%d" % ci, body)
+            defs[inner[0]] = body
+            order.append((inner[0], layout(r, inner[0], print_def(body))))
+            earlier.append((inner[0], 2))
+            if r.intn(2):  # a second function calling the first: two call sites share the closures of ts
+                b2 = [("ucall", inner[0], [("arg", 0), ("arg", 1)]), ("lit", "|"), ("ucall", inner[0], [("lit", "all"), ("arg", 1)])]
+                defs["tw%d" % ci] = b2
+                order.append(("tw%d" % ci, layout(r, "tw%d" % ci, print_def(b2))))
+                earlier.append(("tw%d" % ci, 2))
+        else:
+            for fi in range(1 + r.intn(2)):
+                name = "wf%d_%d" % (ci, fi)
+                body = g.body(fam, 2, earlier)
+                defs[name] = body
+                order.append((name, layout(r, name, print_def(body))))
+                earlier.append((name, 2))
+        fname = earlier[-1][0]
+        call = ("ucall", fname, [("arg", 1), ("arg", 2)])
+        path = os.path.join(d, "w%d.funcs" % ci)
+        with open(path, "w") as f:
+            f.write("\n".join(l for _, ls in order for l in ls) + "\n")
+        # a fixed non-blank frame: the flag parser trims the value of -e, an inlined body may start with a blank
+        call_txt, inline_txt = "k:" + render(call, None, None, True) + ":k", "k:" + render(call, None, defs, True) + ":k"
+        W, B = r.pick([2, 4, 8, 16]), r.pick([1, 5, 100])
+        tail = ["-n", "100000", "-m", "(\\w+) (\\S+)"]
+        cmd_f = sw + ["--funcs", path, "histo", "--workers", str(W), "--batch", str(B)] + tail + ["-e", call_txt, inp]
+        cmd_i = sw + ["histo", "--workers", "1"] + tail + ["-e", inline_txt, inp]
+        rf = rare(exe_race, cmd_f, env, timeout=180)
+        ri = rare(exe, cmd_i, env, timeout=180)
+        runs += 2
+        bad = None
+        if "timeout" in (rf[0], ri[0]):
+            bad = "one of the two runs did not return"
+        elif "DATA RACE" in rf[2] or rf[0] == 66:
+            bad = "the race detector reports a data race while %d workers evaluate one compiled funcs-file call" % W
+        elif any("panic:" in x[2] or "goroutine " in x[2] for x in (rf, ri)):
+            bad = "the real CLI crashed"
+        elif (rf[0] == 0) != (ri[0] == 0):
+            bad = "one of the two command lines is rejected, the other is evaluated"
+        elif rf[0] == 0 and table_of(rf[1]) != table_of(ri[1]):
+            bad = "%d workers evaluating the funcs-file call count other keys than one worker evaluating its body inline" % W
+        elif rf[0] == 0 and not any(re.sub(r"\x1b\[[0-9;]*m|,", "", l).startswith("Matched: %d / %d" % (nlines, nlines)) for l in ri[1].split("\n")):
+            bad = "the input lines were not all matched (the family is not exercising the expression)"
+        if bad:
+            i = rf[2].find("WARNING: DATA RACE")
+            tf, ti = table_of(rf[1]), table_of(ri[1])
+            diff = [l for l in tf if l not in ti][:5] + ["--- inline:"] + [l for l in ti if l not in tf][:5]
+            violations.append({
+                "key": "cli-workers-funcs-vs-inline:" + fam, "kind": "cli-differential-workers", "label": "workers-%d" % ci,
+                "switches": sw, "funcs_files": {path: open(path).read()}, "input": inp, "input_head": open(inp).read()[:300],
+                "call": call_txt, "inline": inline_txt, "cmd_funcs": "GORACE=halt_on_error=1 " + sh([exe_race] + cmd_f), "cmd_inline": sh([exe] + cmd_i),
+                "implementation": "funcs, %d workers: rc=%s" % (W, rf[0]), "model": "inline, 1 worker: rc=%s" % (ri[0],), "table_difference": diff,
+                "stderr_funcs": (rf[2][i:i + 2500] if i >= 0 else rf[2][-600:]), "stderr_inline": ri[2][-600:],
+                "explanation": bad + " (property C10: both equivalences also hold when several workers evaluate concurrently)",
+                "replay": "run cmd_funcs and cmd_inline; the input file is kept"})
+        else:
+            os.remove(inp)
+    return runs
+
+
 def run(ctx):
     exe = build_rare(ctx)
     d = os.path.join(ctx["work"], "clifuncs")
@@ -297,11 +401,15 @@ def run(ctx):
         data = [r.pick(["disk", "7", "1234567", "", "a b"]) for _ in range(r.intn(3))]
         keys = ["k=" + r.pick(["v", "12", ""])] if r.intn(2) else []
         one(sw, order, defs, call, data, keys, fam, noopt=r.intn(4) == 0, via_env=r.intn(5) == 0, split=r.intn(4) == 0, label="gen-%d" % ci)
+    wruns = workers_family(ctx, exe, d, r, g, violations) if len(violations) < 3 else 0
+    runs += wruns
     if not violations:
         shutil.rmtree(d, ignore_errors=True)
-    res = {"runs": runs, "cli_cases": cases, "switch_sensitive": sensitive, "differing": nbad[0], "both_rejected": both_fail, "families": fams, "rejected_reasons": rejected, "violations": violations,
+    res = {"runs": runs, "worker_runs": wruns, "cli_cases": cases, "switch_sensitive": sensitive, "differing": nbad[0], "both_rejected": both_fail, "families": fams, "rejected_reasons": rejected, "violations": violations,
            "assumptions": ["the CLI differential compares a funcs-file call with its body written inline on the generated definition files only; "
-                           "the statement for all bodies is call_nested_eq_body / before_hook_switches_then_funcs"]}
+                           "the statement for all bodies is call_nested_eq_body / before_hook_switches_then_funcs",
+                           "the --workers runs see the schedules the Go runtime produces; the statement for all schedules is userfn_pool_all_schedules / "
+                           "time_cache_workers_same_layout about the model"]}
     if cases and sensitive * 4 < cases:
         raise RuntimeError("the global switches changed the inline output in only %d of %d cases: the search is not looking at switch-dependent bodies" % (sensitive, cases))
     return res
